@@ -53,23 +53,27 @@ Theorem C04_no_interference_while_held : forall t sched s s',
   Forall (fun ua => snd ua <> AWrite /\ snd ua <> AFree) sched /\ Mach.getth s' t = Mach.getth s t /\ Mach.live s' = true.
 Proof. exact no_interference_while_held. Qed.
 
-(* ---- lending: a handle shared BY REFERENCE with a scoped thread (ALend / AReadB / AJoinB): the borrower reads through
+(* ---- lending: a handle shared BY REFERENCE with a scoped thread (ALend / AReadB / ACloneB / AJoinB): the borrower reads through
    the lender's reference without touching the count; the lender, while the loan lasts, only reads, clones, lends and
    joins (no &mut method: borrowck).  These actions are part of the machine, so C04_protocol_safe_all_schedules covers
    every schedule with any number of borrowers; and in every reachable state with an outstanding loan the buffer is
-   live, the lender still holds its reference, and nobody is exclusive or must free.  (Cloning THROUGH a borrowed
-   reference is not modelled: see DESIGN.) ---- *)
+   live, the lender still holds its reference, and nobody is exclusive or must free.  Cloning THROUGH the borrowed reference (ACloneB) is included: the
+   stale-read bound J7 is stated relative to what a thread and the borrowers of its handle have seen. ---- *)
 Theorem C04_borrowed_buffer_protected : forall n sched s c p,
   Mach.run (Mach.init n) sched = Mach.Ok s -> Mach.lend (Mach.getth s c) = S p ->
   Mach.live s = true /\ (Mach.refs (Mach.getth s p) > 0)%nat
   /\ forall q, Mach.excl (Mach.getth s q) = false /\ Mach.mustfree (Mach.getth s q) = false.
 Proof. exact borrowed_buffer_protected. Qed.
 Example C04_lending_example :
-  (exists s, Mach.run (Mach.init 2) [(0,ALend 1);(1,AReadB);(0,ARead);(1,AReadB);(0,AJoinB 1);(0,AProbe 0);(0,AWrite);
-                                     (0,ARelease);(0,Mach.AFence);(0,AReadM);(0,AFree)]%nat = Mach.Ok s /\ Mach.live s = false)
+  (exists s, Mach.run (Mach.init 2) [(0,ALend 1);(1,AReadB);(1,ACloneB);(0,ARead);(1,ARead);(1,ARelease);(0,AJoinB 1);
+                                     (0,AProbe 0);(0,AWrite);(0,ARelease);(0,Mach.AFence);(0,AReadM);(0,AFree)]%nat
+             = Mach.Ok s /\ Mach.live s = false)
   /\ Mach.run (Mach.init 2) [(0,ALend 1);(1,AReadB);(0,AProbe 0)]%nat = Mach.Stuck      (* the lender may not probe / write *)
-  /\ Mach.run (Mach.init 2) [(0,ALend 1);(0,ARelease)]%nat = Mach.Stuck.                 (* ... nor drop its handle *)
-Proof. split; [eexists; vm_compute; split; reflexivity|]. split; vm_compute; reflexivity. Qed.
+  /\ Mach.run (Mach.init 2) [(0,ALend 1);(0,ARelease)]%nat = Mach.Stuck                  (* ... nor drop its handle *)
+  (* after the join the lender can no longer read the stale count 1 that preceded the borrower's clone *)
+  /\ Mach.run (Mach.init 2) [(0,ALend 1);(1,ACloneB);(0,AJoinB 1)]%nat = Mach.Stuck      (* a borrower still holding a clone cannot be joined *)
+  /\ Mach.run (Mach.init 3) [(0,ALend 1);(1,ACloneB);(1,ASpawn 2 1);(0,AJoinB 1);(0,AProbe 1)]%nat = Mach.Stuck.
+Proof. split; [eexists; vm_compute; split; reflexivity|]. repeat split; vm_compute; reflexivity. Qed.
 
 (* ---- thread-local side: the modelled functions only perform actions whose protocol precondition holds, whatever
    the shared memory returns: the buffer is written / reallocated only after an acquire load returned 1 while the
